@@ -88,11 +88,11 @@ func Protocol(t *testing.T, bind *Binding, job *Job, p *sdl.Program, acc *statAc
 				}
 			}
 		}
-	case "C06":
+	case "C06", "C07":
 		for _, s := range sweepSpecs(p, job, SpecData{Lookups: true}) {
 			do(s)
 		}
-	case "C02", "C07", "C08", "C10":
+	case "C02", "C08", "C10":
 		for _, s := range sweepSpecs(p, job, SpecData{}) {
 			do(s)
 		}
